@@ -348,6 +348,7 @@ CHECKS["C13"] = {
         rapid_job("differential", "./verifh/c13", "TestWrapMatchesGRPC", 1500, 10000, timeout={Q: 400, T: 2400}),
         rapid_job("isolation", "./verifh/c13", "TestWrapIsolationAndShape|TestWrapCancelWhileServerSends|TestMethodNamesMatchGRPC", 300, 2000, shards_t=2),
         enum_job("held-handler", "./verifh/c13", "TestClientNotHeldByHandler"),
+        enum_job("done-context", "./verifh/c13", "TestCallOnDoneContext"),
     ],
 }
 
